@@ -40,7 +40,7 @@ pub fn checks() -> Vec<Check> {
             id: "C01",
             engine: Engine::EModel,
             level: "exploration",
-            quick_cases: 64,
+            quick_cases: 128,
             thorough_cases: 1600,
             quick_budget_s: 50,
             thorough_budget_s: 900,
@@ -53,7 +53,7 @@ pub fn checks() -> Vec<Check> {
             id: "C02",
             engine: Engine::EModel,
             level: "exploration",
-            quick_cases: 64,
+            quick_cases: 320,
             thorough_cases: 1600,
             quick_budget_s: 50,
             thorough_budget_s: 900,
@@ -65,7 +65,7 @@ pub fn checks() -> Vec<Check> {
             id: "C05",
             engine: Engine::EModel,
             level: "exploration",
-            quick_cases: 64,
+            quick_cases: 320,
             thorough_cases: 1600,
             quick_budget_s: 50,
             thorough_budget_s: 900,
@@ -77,7 +77,7 @@ pub fn checks() -> Vec<Check> {
             id: "C06",
             engine: Engine::EModel,
             level: "exploration",
-            quick_cases: 64,
+            quick_cases: 256,
             thorough_cases: 1600,
             quick_budget_s: 50,
             thorough_budget_s: 900,
@@ -89,7 +89,7 @@ pub fn checks() -> Vec<Check> {
             id: "C09",
             engine: Engine::EModel,
             level: "exploration",
-            quick_cases: 96,
+            quick_cases: 384,
             thorough_cases: 3000,
             quick_budget_s: 50,
             thorough_budget_s: 900,
@@ -101,7 +101,7 @@ pub fn checks() -> Vec<Check> {
             id: "C10",
             engine: Engine::EModel,
             level: "exploration",
-            quick_cases: 64,
+            quick_cases: 256,
             thorough_cases: 1600,
             quick_budget_s: 50,
             thorough_budget_s: 900,
@@ -113,7 +113,7 @@ pub fn checks() -> Vec<Check> {
             id: "C11",
             engine: Engine::EModel,
             level: "exploration",
-            quick_cases: 96,
+            quick_cases: 384,
             thorough_cases: 3000,
             quick_budget_s: 50,
             thorough_budget_s: 900,
@@ -125,7 +125,7 @@ pub fn checks() -> Vec<Check> {
             id: "C12",
             engine: Engine::EModel,
             level: "exploration",
-            quick_cases: 128,
+            quick_cases: 384,
             thorough_cases: 4000,
             quick_budget_s: 50,
             thorough_budget_s: 900,
@@ -171,7 +171,7 @@ pub fn checks() -> Vec<Check> {
             id: "C14",
             engine: Engine::EIo,
             level: "fault_enumeration",
-            quick_cases: 32,
+            quick_cases: 64,
             thorough_cases: 640,
             quick_budget_s: 55,
             thorough_budget_s: 1500,
@@ -182,7 +182,7 @@ pub fn checks() -> Vec<Check> {
             id: "C17",
             engine: Engine::EIo,
             level: "exploration",
-            quick_cases: 96,
+            quick_cases: 384,
             thorough_cases: 2400,
             quick_budget_s: 55,
             thorough_budget_s: 1200,
@@ -193,7 +193,7 @@ pub fn checks() -> Vec<Check> {
             id: "C20",
             engine: Engine::ELock,
             level: "exploration",
-            quick_cases: 160,
+            quick_cases: 480,
             thorough_cases: 8000,
             quick_budget_s: 55,
             thorough_budget_s: 1200,
@@ -204,7 +204,7 @@ pub fn checks() -> Vec<Check> {
             id: "C15",
             engine: Engine::EConc,
             level: "exploration",
-            quick_cases: 96,
+            quick_cases: 384,
             thorough_cases: 2400,
             quick_budget_s: 55,
             thorough_budget_s: 1500,
@@ -215,7 +215,7 @@ pub fn checks() -> Vec<Check> {
             id: "C16",
             engine: Engine::EModel,
             level: "exploration",
-            quick_cases: 64,
+            quick_cases: 96,
             thorough_cases: 1600,
             quick_budget_s: 50,
             thorough_budget_s: 900,
